@@ -131,6 +131,236 @@ type world struct {
 	events []M
 	reg    *metrics.Metrics
 	prev   map[string]any // previous implementation dump (for the property monitors)
+	// monitor state (survives crash/restart of the server: it is the observer's memory)
+	seen     map[string]M      // C01: first observed creation / completion fields per promise id
+	submitAt map[string]int64  // clock when a request was submitted (its coroutine starts no earlier)
+	leases   map[string]*lease // C07: lower bound of the lease end per task id
+	claimed  map[string]bool   // C07: (task id, counter) pairs whose claim was acknowledged
+	stepNo     int
+	submitStep map[string]int // step at which a request was submitted
+	doneStep   map[string]int // C01: step at which a promise was first observed completed
+}
+
+type lease struct {
+	counter, lb, ttl int64
+	pid              string
+}
+
+func jnum(v any) int64 {
+	switch x := v.(type) {
+	case json.Number:
+		n, _ := x.Int64()
+		return n
+	case int64:
+		return x
+	case int:
+		return int64(x)
+	case float64:
+		return int64(x)
+	}
+	return -1
+}
+
+// walkPromises calls f on every canonical promise object inside v
+func walkPromises(v any, f func(map[string]any)) {
+	switch x := v.(type) {
+	case map[string]any:
+		if _, ok := x["idempotencyKeyForComplete"]; ok {
+			if _, ok := x["state"]; ok {
+				f(x)
+				return
+			}
+		}
+		for _, y := range x {
+			walkPromises(y, f)
+		}
+	case []any:
+		for _, y := range x {
+			walkPromises(y, f)
+		}
+	}
+}
+
+var c01Creation = []string{"param", "timeout", "tags", "idempotencyKeyForCreate", "createdOn"}
+var c01Completion = []string{"state", "value", "completedOn", "idempotencyKeyForComplete"}
+
+// c01Observe: every externally visible copy of a promise (responses, notification payloads) agrees with the first
+// one observed on the creation fields, and - once completed - on state, value, completion time and completion key
+func (w *world) c01Observe(ev map[string]any) string {
+	if ev["e"] == "dispatch" {
+		sub, _ := ev["sub"].(map[string]any)
+		if sub == nil || sub["k"] != "sender" {
+			return ""
+		}
+	} else if ev["e"] != "respond" {
+		return ""
+	}
+	out := ""
+	walkPromises(ev, func(p map[string]any) {
+		if out != "" {
+			return
+		}
+		id := fmt.Sprint(p["id"])
+		first := w.seen[id]
+		if first == nil {
+			first = M{}
+			for _, f := range c01Creation {
+				first[f] = p[f]
+			}
+			w.seen[id] = first
+		}
+		for _, f := range c01Creation {
+			if !reflect.DeepEqual(first[f], p[f]) {
+				out = fmt.Sprintf("promise %q: creation field %s observed as %v and later as %v", id, f, first[f], p[f])
+				return
+			}
+		}
+		if jnum(p["state"]) == 1 {
+			// a pending copy is a contradiction only when the request was issued after the completion had been observed
+			// (requests in flight at that moment may have read earlier: that is concurrency, not a change of state)
+			if tid := fmt.Sprint(ev["tid"]); first["state"] != nil && ev["e"] == "respond" && w.submitStep[tid] > w.doneStep[id] {
+				out = fmt.Sprintf("promise %q was observed completed (state %v) at step %d; request %s submitted later at step %d is told it is pending", id, first["state"], w.doneStep[id], tid, w.submitStep[tid])
+			}
+			return
+		}
+		// a completed copy must agree with the committed row (the database only changes at store batches)
+		if xs, ok := w.prev["promises"].([]any); ok {
+			for _, x := range xs {
+				row, _ := x.(map[string]any)
+				if row == nil || fmt.Sprint(row["id"]) != id {
+					continue
+				}
+				for _, f := range []string{"state", "completedOn", "idempotencyKeyForComplete"} {
+					if !reflect.DeepEqual(fmt.Sprint(row[f]), fmt.Sprint(p[f])) {
+						out = fmt.Sprintf("completed promise %q: %s is %v in this copy but %v in the committed row", id, f, p[f], row[f])
+						return
+					}
+				}
+			}
+		}
+		if first["state"] == nil {
+			for _, f := range c01Completion {
+				first[f] = p[f]
+			}
+			w.doneStep[id] = w.stepNo
+			return
+		}
+		for _, f := range c01Completion {
+			if !reflect.DeepEqual(first[f], p[f]) {
+				out = fmt.Sprintf("completed promise %q: %s observed as %v and later as %v", id, f, first[f], p[f])
+				return
+			}
+		}
+	})
+	return out
+}
+
+// c07Leases runs after a store batch: prev/cur are the dumps around it, items the executed submissions.
+// A claimed task (counter c) whose lease end is known to be >= lb must not be taken away while the clock is < lb,
+// unless its own timeout has passed or its root promise completed.
+func (w *world) c07Leases(counts map[string]int, reqs map[string]M, items []Item, prev, cur map[string]any, now int64) string {
+	rowsOf := func(d map[string]any, t string) map[string]map[string]any {
+		out := map[string]map[string]any{}
+		xs, _ := d[t].([]any)
+		for _, x := range xs {
+			if m, ok := x.(map[string]any); ok {
+				out[fmt.Sprint(m["id"])] = m
+			}
+		}
+		return out
+	}
+	pt, ct, cp := rowsOf(prev, "tasks"), rowsOf(cur, "tasks"), rowsOf(cur, "promises")
+	for id, t := range pt {
+		l := w.leases[id]
+		u := ct[id]
+		if l == nil || u == nil || jnum(t["state"]) != 4 || jnum(t["counter"]) != l.counter {
+			continue
+		}
+		taken := jnum(u["counter"]) > l.counter || jnum(u["state"]) == 1 || jnum(u["state"]) == 2
+		if taken && os.Getenv("DEBUG_LEASE") != "" {
+			fmt.Fprintf(os.Stderr, "taken id=%s now=%d lb=%d ttl=%d prev=%v cur=%v\n", id, now, l.lb, l.ttl, t, u)
+		}
+		if taken {
+			counts["lease_taken_away"]++
+		}
+		if !taken || now >= l.lb || jnum(t["timeout"]) <= now {
+			continue
+		}
+		if p := cp[fmt.Sprint(t["rootPromiseId"])]; p != nil && jnum(p["state"]) != 1 {
+			continue
+		}
+		return fmt.Sprintf("task %q (counter %d, holder %s) was taken away at clock %d although its lease (ttl %d) cannot end before %d: %v -> %v", id, l.counter, l.pid, now, l.ttl, l.lb, t, u)
+	}
+	// update the lease table from what this batch did
+	for id, u := range ct {
+		if jnum(u["state"]) != 4 {
+			continue
+		}
+		t := pt[id]
+		pid := fmt.Sprint(u["processId"])
+		if t == nil || jnum(t["state"]) != 4 || jnum(t["counter"]) != jnum(u["counter"]) {
+			// newly claimed by one of the claim requests of this batch
+			var nl *lease
+			for _, it := range items {
+				rq := reqs[it.Tid]
+				c, _ := rq["c"].(map[string]any)
+				if rq["k"] == "CreatePromiseAndTask" && c != nil {
+					// creates the task already claimed by the requester
+					pr, _ := c["promise"].(map[string]any)
+					tk, _ := c["task"].(map[string]any)
+					if pr == nil || tk == nil || "__invoke:"+fmt.Sprint(pr["id"]) != id {
+						continue
+					}
+					c = M{"id": id, "processId": tk["processId"], "ttl": tk["ttl"]}
+				} else if rq["k"] != "ClaimTask" || c == nil {
+					continue
+				}
+				if fmt.Sprint(c["id"]) != id || fmt.Sprint(c["processId"]) != pid || it.Mode == "before" {
+					continue
+				}
+				lb, ttl := w.submitAt[it.Tid]+jnum(c["ttl"]), jnum(c["ttl"])
+				if nl == nil {
+					nl = &lease{counter: jnum(u["counter"]), lb: lb, ttl: ttl, pid: pid}
+				} else {
+					if lb < nl.lb {
+						nl.lb = lb
+					}
+					if ttl < nl.ttl {
+						nl.ttl = ttl
+					}
+				}
+			}
+			if nl != nil {
+				counts["lease_claimed"]++
+				w.leases[id] = nl
+			} else {
+				delete(w.leases, id)
+			}
+			continue
+		}
+		if l := w.leases[id]; l != nil && l.counter == jnum(u["counter"]) && jnum(u["expiresAt"]) != jnum(t["expiresAt"]) && now < l.lb {
+			// renewed by one of the heartbeat requests of this batch, and certainly in time: the heartbeat was processed no
+			// later than the clock of this batch, which is before the lease end as the PROPERTY defines it (claim or last
+			// timely heartbeat plus ttl, of which lb is a lower bound).  The row's own expires_at is not used: it may stem
+			// from a late heartbeat, which earns no protection (a sweep that had read the expired lease may still act).
+			var lb int64 = -1
+			for _, it := range items {
+				rq := reqs[it.Tid]
+				c, _ := rq["c"].(map[string]any)
+				if rq["k"] != "HeartbeatTasks" || c == nil || fmt.Sprint(c["processId"]) != pid || it.Mode == "before" {
+					continue
+				}
+				if x := w.submitAt[it.Tid] + l.ttl; lb < 0 || x < lb {
+					lb = x
+				}
+			}
+			counts["lease_renewed"]++
+			if lb > l.lb {
+				l.lb = lb
+			}
+		}
+	}
+	return ""
 }
 
 func newWorld(path string, cfg Cfg, bg bool) (*world, error) {
@@ -143,7 +373,7 @@ func newWorld(path string, cfg Cfg, bg bool) (*world, error) {
 		return nil, err
 	}
 	boot.Close()
-	w := &world{cfg: cfg, bg: bg, path: path}
+	w := &world{cfg: cfg, bg: bg, path: path, seen: map[string]M{}, submitAt: map[string]int64{}, leases: map[string]*lease{}, claimed: map[string]bool{}, submitStep: map[string]int{}, doneStep: map[string]int{}}
 	w.rdb, err = sql.Open("sqlite3", path)
 	if err != nil {
 		return nil, err
@@ -292,7 +522,9 @@ func respMonitor(w *world, reqs map[string]M, tid string, resp map[string]any, t
 				id = "__notify:" + fmt.Sprint(c["promiseId"]) + ":" + fmt.Sprint(c["id"])
 			}
 			var n int
-			if err := w.rdb.QueryRow(`SELECT count(*) FROM callbacks WHERE id = ?`, id).Scan(&n); err == nil && n == 0 {
+			// the registration itself, or - when the promise completed between the coroutine's last read and this
+			// response - the task it was turned into (same id)
+			if err := w.rdb.QueryRow(`SELECT (SELECT count(*) FROM callbacks WHERE id = ?) + (SELECT count(*) FROM tasks WHERE id = ?)`, id, id).Scan(&n); err == nil && n == 0 {
 				var st int
 				_ = w.rdb.QueryRow(`SELECT state FROM promises WHERE id = ?`, fmt.Sprint(c["promiseId"])).Scan(&st)
 				return "C05", "F1", fmt.Sprintf("registration %q acknowledged (200, promise reported PENDING, no callback) but no registration exists; the promise is now in state %d", id, st)
@@ -303,6 +535,7 @@ func respMonitor(w *world, reqs map[string]M, tid string, resp map[string]any, t
 }
 
 var forcePanics bool
+var focusClock bool // small clock steps (hunting around deadlines and leases)
 var monitors = map[string]bool{}
 
 type runner struct {
@@ -313,6 +546,16 @@ type runner struct {
 	status map[string]int
 	reqs   map[string]M
 	now    int64
+	// implOnly: the model is not consulted (used to hunt for a property violation on the implementation after the
+	// correspondence has broken); only the property monitors decide
+	implOnly bool
+}
+
+func (r *runner) call(req M) (M, any, error) {
+	if r.implOnly {
+		return M{}, nil, nil
+	}
+	return r.drv.Call(req)
 }
 
 type divergence struct {
@@ -322,6 +565,7 @@ type divergence struct {
 
 // apply one step to model and implementation; returns a divergence description or nil
 func (r *runner) apply(w *world, st Step) (M, bool) {
+	w.stepNo++
 	switch st.Op {
 	case "submit", "tick", "crash", "shutdown":
 		var req M
@@ -333,7 +577,7 @@ func (r *runner) apply(w *world, st Step) (M, bool) {
 		default:
 			req = M{"op": st.Op}
 		}
-		rep, _, err := r.drv.Call(req)
+		rep, _, err := r.call(req)
 		if err != nil {
 			return M{"harness": err.Error()}, false
 		}
@@ -355,6 +599,8 @@ func (r *runner) apply(w *world, st Step) (M, bool) {
 			r.now = st.T
 		}
 		if st.Op == "submit" {
+			w.submitAt[st.Tid] = r.now
+			w.submitStep[st.Tid] = w.stepNo
 			if r.reqs == nil {
 				r.reqs = map[string]M{}
 			}
@@ -389,8 +635,21 @@ func (r *runner) apply(w *world, st Step) (M, bool) {
 		is, ms := sortedEvents(in.([]any)), sortedEvents(mev)
 		for _, e := range in.([]any) {
 			m := e.(map[string]any)
+			if monitors["C01"] {
+				if what := w.c01Observe(m); what != "" {
+					return M{"what": "property monitor failed on an implementation response", "property": "C01", "diff": what, "property_violation": true, "step": st}, false
+				}
+			}
 			if m["e"] == "respond" {
 				resp := m["resp"].(map[string]any)
+				if rq := r.reqs[fmt.Sprint(m["tid"])]; monitors["C07"] && rq["k"] == "ClaimTask" && jnum(resp["status"]) == 20100 {
+					c, _ := rq["c"].(map[string]any)
+					key := fmt.Sprintf("%v#%v", c["id"], c["counter"])
+					if w.claimed[key] {
+						return M{"what": "property monitor failed on an implementation response", "property": "C07", "diff": "a second claim of task " + key + " (same counter) was acknowledged", "property_violation": true, "step": st}, false
+					}
+					w.claimed[key] = true
+				}
 				r.status[fmt.Sprintf("%v:%v", resp["k"], resp["status"])]++
 				if pid, key, what := respMonitor(w, r.reqs, fmt.Sprint(m["tid"]), resp, r.now); pid != "" {
 					if key != "" && known[key] {
@@ -402,7 +661,7 @@ func (r *runner) apply(w *world, st Step) (M, bool) {
 			}
 			r.counts["ev:"+m["e"].(string)]++
 		}
-		if !reflect.DeepEqual(is, ms) {
+		if !r.implOnly && !reflect.DeepEqual(is, ms) {
 			return M{"what": "events differ at " + st.Op, "step": st, "impl_only": diffStrings(is, ms), "model_only": diffStrings(ms, is)}, false
 		}
 	case "exec":
@@ -410,7 +669,7 @@ func (r *runner) apply(w *world, st Step) (M, bool) {
 		for _, it := range st.Items {
 			items = append(items, M{"tid": it.Tid, "seq": it.Seq, "mode": it.Mode})
 		}
-		rep, _, err := r.drv.Call(M{"op": "exec", "items": items})
+		rep, _, err := r.call(M{"op": "exec", "items": items})
 		if err != nil {
 			return M{"harness": err.Error()}, false
 		}
@@ -462,7 +721,19 @@ func (r *runner) apply(w *world, st Step) (M, bool) {
 			if pid, what := monitor.Check(monitors, w.prev, cur); pid != "" {
 				return M{"what": "property monitor failed on the implementation", "property": pid, "diff": what, "property_violation": true, "step": st}, false
 			}
+			if monitors["C07"] {
+				pv := w.prev
+				if pv == nil {
+					pv = map[string]any{}
+				}
+				if what := w.c07Leases(r.counts, r.reqs, st.Items, pv, cur, r.now); what != "" {
+					return M{"what": "property monitor failed on the implementation", "property": "C07", "diff": what, "property_violation": true, "step": st}, false
+				}
+			}
 			w.prev = cur
+		}
+		if r.implOnly {
+			return nil, false
 		}
 		modelErr := rep["err"] != nil
 		if modelErr != implErr {
@@ -501,7 +772,7 @@ func (r *runner) apply(w *world, st Step) (M, bool) {
 				r.counts["router_unmatched"]++
 			}
 		}
-		if _, _, err := r.drv.Call(M{"op": "complete", "tid": st.Tid, "seq": st.Seq, "cpl": cpl}); err != nil {
+		if _, _, err := r.call(M{"op": "complete", "tid": st.Tid, "seq": st.Seq, "cpl": cpl}); err != nil {
 			return M{"harness": err.Error()}, false
 		}
 	case "send":
@@ -526,7 +797,7 @@ func (r *runner) apply(w *world, st Step) (M, bool) {
 		}
 		r.counts["send_"+st.Outcome]++
 		w.aio.EnqueueCQE(cqe)
-		if _, _, err := r.drv.Call(M{"op": "complete", "tid": st.Tid, "seq": st.Seq, "cpl": cpl}); err != nil {
+		if _, _, err := r.call(M{"op": "complete", "tid": st.Tid, "seq": st.Seq, "cpl": cpl}); err != nil {
 			return M{"harness": err.Error()}, false
 		}
 	}
@@ -598,7 +869,8 @@ func (r *runner) replayScript(cfg Cfg, bg bool, steps []Step) (int, M, bool) {
 		return 0, M{"harness": err.Error()}, false
 	}
 	defer w.close()
-	if _, _, err := r.drv.Call(M{"op": "sys_init", "cfg": cfg, "dialect": "sqlite", "bg": bg}); err != nil {
+	r.now = 0 // the clock of the previous script must not leak into this one
+	if _, _, err := r.call(M{"op": "sys_init", "cfg": cfg, "dialect": "sqlite", "bg": bg}); err != nil {
 		return 0, M{"harness": err.Error()}, false
 	}
 	for i, st := range steps {
@@ -650,7 +922,8 @@ func (r *runner) generate(g *gen.G, cfg Cfg, bg bool, o genOpts) ([]Step, int, M
 		return nil, 0, M{"harness": err.Error()}, false
 	}
 	defer w.close()
-	if _, _, err := r.drv.Call(M{"op": "sys_init", "cfg": cfg, "dialect": "sqlite", "bg": bg}); err != nil {
+	r.now = 0 // the clock of the previous script must not leak into this one
+	if _, _, err := r.call(M{"op": "sys_init", "cfg": cfg, "dialect": "sqlite", "bg": bg}); err != nil {
 		return nil, 0, M{"harness": err.Error()}, false
 	}
 	var steps []Step
@@ -661,7 +934,7 @@ func (r *runner) generate(g *gen.G, cfg Cfg, bg bool, o genOpts) ([]Step, int, M
 		return r.apply(w, st)
 	}
 	knownTasks := func() []gen.KnownTask {
-		rows, err := w.rdb.Query(`SELECT id, counter FROM tasks`)
+		rows, err := w.rdb.Query(`SELECT id, counter, CASE WHEN state = 4 THEN coalesce(process_id, '') ELSE '' END FROM tasks`)
 		if err != nil {
 			return nil
 		}
@@ -669,13 +942,111 @@ func (r *runner) generate(g *gen.G, cfg Cfg, bg bool, o genOpts) ([]Step, int, M
 		var out []gen.KnownTask
 		for rows.Next() {
 			var t gen.KnownTask
-			if rows.Scan(&t.Id, &t.Counter) == nil {
+			if rows.Scan(&t.Id, &t.Counter, &t.Pid) == nil {
 				out = append(out, t)
 			}
 		}
 		return out
 	}
+	// settle: a few rounds of (complete routers and senders, tick, run every pending store submission in FIFO order)
+	settle := func(rounds int, dt int64) (M, bool) {
+		for i := 0; i < rounds; i++ {
+			for _, h := range append([]*held{}, w.aio.pending...) {
+				var info M
+				var pred bool
+				if h.sqe.Submission.Kind == t_aio.Router {
+					info, pred = do(Step{Op: "route", Tid: h.tid, Seq: h.seq})
+				} else if h.sqe.Submission.Kind == t_aio.Sender {
+					info, pred = do(Step{Op: "send", Tid: h.tid, Seq: h.seq, Outcome: "success"})
+				}
+				if info != nil {
+					return info, pred
+				}
+			}
+			now += dt
+			if info, pred := do(Step{Op: "tick", T: now}); info != nil {
+				return info, pred
+			}
+			var items []Item
+			for _, h := range w.aio.pending {
+				if h.sqe.Submission.Kind == t_aio.Store {
+					items = append(items, Item{Tid: h.tid, Seq: h.seq, Mode: "ok"})
+				}
+			}
+			if len(items) > 0 {
+				if info, pred := do(Step{Op: "exec", Items: items}); info != nil {
+					return info, pred
+				}
+			}
+		}
+		return nil, false
+	}
+	hasKind := func(k t_api.Kind) bool {
+		for _, x := range o.kinds {
+			if x == k {
+				return true
+			}
+		}
+		return false
+	}
+	// a worker's life: a routed promise is created, its task claimed with a real ttl, the lease renewed in time,
+	// and lease sweeps run before the renewed lease ends
+	leaseScenario := func() (M, bool) {
+		nreq++
+		id := g.Pick(gen.ApiPromiseIds)
+		pidW := g.Pick(gen.ProcIds)
+		ttl := []int{1000, 3000, 5000}[g.R.Intn(3)]
+		mk := func(k t_api.Kind) (*t_api.Request, string) {
+			nreq++
+			tid := fmt.Sprintf("r%d", nreq)
+			return &t_api.Request{Kind: k, Tags: map[string]string{"id": tid, "name": k.String(), "protocol": "dst"}}, tid
+		}
+		rq, tid := mk(t_api.CreatePromise)
+		rq.CreatePromise = &t_api.CreatePromiseRequest{Id: id, Timeout: now + 100000, Tags: map[string]string{"resonate:invoke": "default"}}
+		if info, pred := do(Step{Op: "submit", Tid: tid, Req: canon.Req(rq)}); info != nil {
+			return info, pred
+		}
+		if info, pred := settle(4, 1); info != nil {
+			return info, pred
+		}
+		counter := 1
+		for _, t := range knownTasks() {
+			if t.Id == "__invoke:"+id {
+				counter = t.Counter
+			}
+		}
+		rq, tid = mk(t_api.ClaimTask)
+		rq.ClaimTask = &t_api.ClaimTaskRequest{Id: "__invoke:" + id, Counter: counter, ProcessId: pidW, Ttl: ttl}
+		if info, pred := do(Step{Op: "submit", Tid: tid, Req: canon.Req(rq)}); info != nil {
+			return info, pred
+		}
+		if info, pred := settle(3, 1); info != nil {
+			return info, pred
+		}
+		for beat := 0; beat < 1+g.R.Intn(2); beat++ {
+			now += int64(ttl) / 2
+			if info, pred := do(Step{Op: "tick", T: now}); info != nil { // the server clock is what a tick says
+				return info, pred
+			}
+			rq, tid = mk(t_api.HeartbeatTasks)
+			rq.HeartbeatTasks = &t_api.HeartbeatTasksRequest{ProcessId: pidW}
+			if info, pred := do(Step{Op: "submit", Tid: tid, Req: canon.Req(rq)}); info != nil {
+				return info, pred
+			}
+			if info, pred := settle(3, 1); info != nil {
+				return info, pred
+			}
+		}
+		// sweeps before the renewed lease ends
+		return settle(3, int64(ttl)/5)
+	}
 	for len(steps) < o.steps {
+		if hasKind(t_api.ClaimTask) && hasKind(t_api.HeartbeatTasks) && g.R.Intn(60) == 0 {
+			if info, pred := leaseScenario(); info != nil {
+				return steps, len(steps) - 1, info, pred
+			}
+			continue
+		}
 		x := g.R.Intn(100)
 		var info M
 		var pred bool
@@ -709,7 +1080,11 @@ func (r *runner) generate(g *gen.G, cfg Cfg, bg bool, o genOpts) ([]Step, int, M
 				}
 			}
 			if info == nil {
-				now += []int64{0, 1, 1, 500, 1000, 1000, 2000, 5000}[g.R.Intn(8)]
+				if focusClock {
+					now += []int64{0, 1, 1, 100, 500, 500, 1000, 1000}[g.R.Intn(8)]
+				} else {
+					now += []int64{0, 1, 1, 500, 1000, 1000, 2000, 5000}[g.R.Intn(8)]
+				}
 				info, pred = do(Step{Op: "tick", T: now})
 			}
 		case x < 99-o.crashPct:
@@ -826,6 +1201,9 @@ func main() {
 	out := flag.String("out", "", "summary JSON path")
 	mon := flag.String("monitor", "", "comma-separated property ids whose monitors run on the implementation dumps")
 	hostile := flag.Bool("hostile", false, "extend the generator pools with hostile values (markup in ids, unclosed templates, JSON literals as routing tags)")
+	hunt := flag.Int("hunt", 0, "after a correspondence divergence that is not itself a property violation: run this many scripts against the implementation alone, the property monitors deciding")
+	focusFlag := flag.Bool("focus", false, "narrow the generator: two promise ids, deadlines close to the clock")
+	implOnlyFlag := flag.Bool("implonly", false, "do not consult the model at all: the property monitors alone decide (used to look for failing inputs)")
 	knownFlag := flag.String("known", "", "comma-separated known-finding keys the response monitors tolerate (counted, not raised)")
 	flag.BoolVar(&forcePanics, "force", false, "execute predicted panics against the implementation (the process is expected to die)")
 	flag.Parse()
@@ -852,6 +1230,9 @@ func main() {
 	defer drv.Close()
 	r := &runner{drv: drv, dir: *work, counts: map[string]int{}, status: map[string]int{}}
 	g := gen.New(*seed)
+	r.implOnly = *implOnlyFlag
+	gen.Focus(*focusFlag)
+	focusClock = *focusFlag
 
 	ks := gen.AllApiKinds
 	if *kinds != "" {
@@ -871,9 +1252,12 @@ func main() {
 		if info2 == nil {
 			small, info2 = steps, info
 		}
-		rep := M{"harness": "sysdiff", "origin": origin, "cfg": cfg, "bg": bg, "steps": small, "divergence": info2, "predicted_panic": predicted}
+		rep := M{"harness": "sysdiff", "origin": origin, "cfg": cfg, "bg": bg, "steps": small, "divergence": info2, "predicted_panic": predicted, "impl_only": r.implOnly}
 		b, _ := json.MarshalIndent(rep, "", " ")
 		path := filepath.Join(*work, "sysdiff-divergence.json")
+		if r.implOnly {
+			path = filepath.Join(*work, "sysdiff-hunt.json")
+		}
 		os.WriteFile(path, b, 0o644)
 		summary["disagreements"] = 1
 		summary["divergence_file"] = path
@@ -899,9 +1283,10 @@ func main() {
 			panic(err)
 		}
 		var rec struct {
-			Cfg   Cfg    `json:"cfg"`
-			Bg    bool   `json:"bg"`
-			Steps []Step `json:"steps"`
+			Cfg      Cfg    `json:"cfg"`
+			Bg       bool   `json:"bg"`
+			Steps    []Step `json:"steps"`
+			ImplOnly bool   `json:"impl_only"`
 		}
 		dec := json.NewDecoder(strings.NewReader(string(b)))
 		dec.UseNumber()
@@ -909,6 +1294,7 @@ func main() {
 			panic(err)
 		}
 		ncorpus++
+		r.implOnly = rec.ImplOnly
 		if i, info, pred := r.replayScript(rec.Cfg, rec.Bg, rec.Steps); i >= 0 {
 			record(rec.Cfg, rec.Bg, rec.Steps, info, pred, f)
 			break
@@ -917,9 +1303,12 @@ func main() {
 	summary["corpus_scripts"] = ncorpus
 
 	nstepsTotal := 0
+	divScript := -1
 	var samples []any
 	if *replay == "" && summary["disagreements"] == 0 {
 		for s := 0; s < *nscripts; s++ {
+			g.Reseed(*seed*1000003 + int64(s))
+			divScript = s
 			cfg := drawCfg(g, *small)
 			steps, i, info, pred := r.generate(g, cfg, *bgFlag, genOpts{kinds: ks, routedPct: *routed, failPct: *failPct, crashPct: *crashPct, steps: *nsteps})
 			nstepsTotal += len(steps)
@@ -931,6 +1320,34 @@ func main() {
 				break
 			}
 		}
+	}
+	if summary["disagreements"] != 0 && summary["property_violation"] != true && *hunt > 0 && *replay == "" {
+		// the correspondence broke: look for a concrete failing history of the property on the implementation alone
+		r.implOnly = true
+		hg := gen.New(*seed + 7919)
+		summary["hunt_scripts"] = 0
+		for s := 0; s < *hunt; s++ {
+			// first the diverging script itself (same generator stream, now continuing past the divergence), then fresh ones
+			if s == 0 && divScript >= 0 {
+				hg.Reseed(*seed*1000003 + int64(divScript))
+			} else {
+				hg.Reseed((*seed+7919)*1000003 + int64(s))
+			}
+			gen.Focus(s%2 == 1)
+			focusClock = s%2 == 1
+			cfg := drawCfg(hg, *small)
+			steps, i, info, pred := r.generate(hg, cfg, *bgFlag, genOpts{kinds: ks, routedPct: *routed, failPct: *failPct, crashPct: *crashPct, steps: *nsteps})
+			summary["hunt_scripts"] = s + 1
+			if i >= 0 && info["property_violation"] == true {
+				corr := summary["divergence"]
+				record(cfg, *bgFlag, steps, info, pred, fmt.Sprintf("hunt seed=%d script=%d", *seed+7919, s))
+				summary["correspondence_divergence"] = corr
+				break
+			}
+		}
+		r.implOnly = false
+		gen.Focus(false)
+		focusClock = false
 	}
 	summary["scripts"] = *nscripts
 	summary["cases"] = nstepsTotal
